@@ -1,6 +1,8 @@
 package rules
 
 import (
+	"strings"
+
 	"gmcheck/core"
 )
 
@@ -8,7 +10,9 @@ func init() {
 	Props["C05"] = PropDef{
 		Explanation: "T-VARLEN: Len() of VarInt/VarLong equals the LEB128 length of the two's-complement pattern and equals the byte count WriteToBytes returns (decided by evaluating the integer control skeleton at every breakpoint of the code and of the LEB128 length function); WriteTo emits exactly vi[:n]; the decode loops read at most MaxVarIntLen / MaxVarLongLen bytes. Not decided: the emitted bit pattern and the decoded value (shift/mask arithmetic over run-time values).",
 		Run: func(c *Ctx) []core.Ob {
-			return c.VarLen()
+			obs := c.VarLen()
+			obs = append(obs, filterObs(c.BitFields("net/packet"), func(o core.Ob) bool { return strings.Contains(o.Key, "VarInt") || strings.Contains(o.Key, "VarLong") })...)
+			return obs
 		},
 	}
 	Props["C14"] = PropDef{
@@ -29,7 +33,7 @@ func init() {
 			obs := c.RegionOrigin()
 			for _, o := range c.RegionOrder() {
 				switch o.Key {
-				case "region:setHead-own-coordinates", "region:header-mirrored", "region:load-visits-every-entry", "region:refusal-before-mutation":
+				case "region:setHead-own-coordinates", "region:header-mirrored", "region:load-visits-every-entry", "region:refusal-before-mutation", "region:occupancy-change-mirrored":
 					obs = append(obs, o)
 				}
 			}
@@ -55,6 +59,8 @@ func init() {
 			obs := c.SignaturePolarity()
 			obs = append(obs, c.OfflineUUIDInputs()...)
 			obs = append(obs, c.SignatureHashOrder()...)
+			obs = append(obs, c.BitFields("offline")...)
+			obs = append(obs, c.RippleCarry("bot", "server/auth")...)
 			return obs
 		},
 	}
